@@ -54,7 +54,7 @@ def forced(rng, tier):
 SPEC = streamcheck.StreamSpec(
     PROP, probes=['C04'],
     # counts include 0 (a registry sweep reaching 0 rounds): the duration of a block does not depend on its count (C04-m5)
-    cfg=progs.GenConfig(n_cmds=(4, 30), p_list=0.10, p_rel=0.55, reps=[0, 1, 1, 2, 3], p_huge=0.04),
+    cfg=progs.GenConfig(n_cmds=(4, 30), p_list=0.10, p_rel=0.55, reps=[0, 1, 1, 2, 3], p_huge=0.04, allow_zero_gdur=True),
     n_quick=900, n_thorough=30000,
     nontrivial=nontrivial,
     pysem=dict(groups=['timing']),
